@@ -20,7 +20,7 @@ LEVEL = {
  "C05": ("bounded symbolic model checking of the write -> set-bit -> persist order on the real torrent handlers and the real piece writer with the crash instant ranging over every prefix of the recorded effect log; of the resume-trust decision at allocation time; and of the O_SYNC open flags. bbolt's own atomicity and the periodic stats goroutine are outside the claim.", "4 C05"),
  "C04": ("bounded symbolic model checking of the real torrent lifecycle handlers: all event sequences up to the stated length from a freshly constructed torrent (real newTorrent), with symbolic worker results, checking a written lifecycle invariant after every event", "4 C04"),
  "C17": ("bounded symbolic model checking of the write-cache reservation manager (real goroutines, cooperative scheduling with select forking): request/cancel/release sequences never strand the caller and reservations balance; of the accept-side connection cap incl. failed handshakes (real handshaker); of the web-seed source cap in the constructor. Queue caps per peer are partly covered by C01/C11 harnesses; rate limits and the dial-side cap are not covered.", "4 C17"),
- "C12": ("bounded symbolic model checking of the MSE synchronisation scan (readSync) for symbolic padding, scan limit and fragmentation. The two-party handshake, cipher negotiation and the encryption policy matrix are not covered yet.", "4 C12"),
+ "C12": ("bounded symbolic model checking of the MSE synchronisation scan (symbolic padding, scan limit, fragmentation) and of the two-party handshake (both real endpoints as cooperating goroutines, cryptographic primitives replaced by their algebraic contracts): agreement on one offered cipher or failure on both sides, payload integrity in both directions, wrong key never completes. The forced-encryption policy matrix (btconn.Accept/Dial) is not covered.", "4 C12"),
  "C19": ("bounded symbolic model checking of every site where a private torrent could start DHT/PEX activity or accept an address (real handlers on a real torrent value; all configuration combinations; arbitrary PEX/DHT addresses)", "4 C19"),
  "C09": ("bounded symbolic model checking of the real piece picker driven through the real torrent message handlers: all peer-event sequences up to the stated length from a fresh downloading torrent, checking every request sent and the download table against the property's statements. Web-seed range assignment is not covered.", "4 C09"),
  "C14": ("bounded symbolic model checking of the session registry code (real Session.AddTorrent/RemoveTorrent/add/getPort/releasePort/insertTorrent) over all 3-operation sequences with injected failures: port and registry conservation and registry == resume records. Restart equivalence and value round trips through bbolt are not covered.", "4 C14"),
